@@ -253,7 +253,10 @@ def task_functions(arg):
             "clone-list": lambda: [f, {n: clone(f[n])}],
             "wrapper-list": lambda: [f, {n: wrapper(f[n], "same")}],
             "perturbed-list": lambda: [f, {n: wrapper(f[n], "plus")}],
+            "perturbed-dict": lambda: {**f, n: wrapper(f[n], "plus")},
+            "perturbed-renamed": lambda: [f, {n: renamed(wrapper(f[n], "plus"))}],
         }
+        perturbed_results = {}
         for label, build in variants.items():
             out.state((date_iso[:4], n, label))
             try:
@@ -267,6 +270,7 @@ def task_functions(arg):
             out.step()
             d = diff_nodes(base, got, nodes)
             if label.startswith("perturbed"):
+                perturbed_results[label] = got
                 for c in sorted(set(d) - allowed):
                     out.violation(f"function:perturbed:{n}:changes-unrelated:{c}", {**case, "column": c},
                                   f"replacing {n} on {date_iso} changes {c} ({d[c][0]}: {d[c][1]}), which is not a descendant of {n}")
@@ -279,8 +283,71 @@ def task_functions(arg):
                 for c in sorted(d):
                     out.violation(f"function:{label}:changes:{c}", {**case, "variant": label, "column": c},
                                   f"replacing {n} by an identical function ({label}) on {date_iso} changes {c} ({d[c][0]}: {d[c][1]})")
+        # the same reform passed as list element, as dict entry, or under another Python name must give the same results
+        ref_label = "perturbed-list"
+        for label in ("perturbed-dict", "perturbed-renamed"):
+            if ref_label in perturbed_results and label in perturbed_results:
+                dd = diff_nodes(perturbed_results[ref_label], perturbed_results[label], nodes)
+                for c in sorted(dd)[:5]:
+                    out.violation(f"function:{label}-differs-from-list-form:{n}", {**case, "column": c},
+                                  f"replacing {n} on {date_iso}: column {c} differs between the list form and the {label} form of the same reform ({dd[c][0]}: {dd[c][1]})")
     out.sample({"date": date_iso, "rules": rules[:4]}, limit=1)
     return out.dump()
+
+
+FILE_REFORMS = [
+    ("kindergeld_m", "def kindergeld_m(kindergeld_anz_ansprüche: int) -> float:\n    return kindergeld_anz_ansprüche * 300.0\n"),
+    ("soli_st_y_sn", "def soli_st_y_sn(eink_st_y_sn: float) -> float:\n    return eink_st_y_sn * 0.07\n"),
+    ("kindergeld_m", "def kindergeld_m(kindergeld_anz_ansprüche: int) -> float:\n    return kindergeld_anz_ansprüche * 111.0\n"),
+]
+
+
+def task_file_reforms(arg):
+    """The same reform handed over as the path of a Python file (rewritten between calls) and as a function object must agree."""
+    import pathlib
+    import shutil
+    import tempfile
+
+    date_iso, names = arg
+    out = Partial()
+    year = int(date_iso[:4])
+    df = popgen.frame(popgen.combined(names, year))
+    p, f = harness.env(date_iso)
+    try:
+        nodes, dag, fn = graph_info(date_iso, df.columns, f)
+    except Exception:  # noqa: BLE001
+        return out.dump()
+    d = pathlib.Path(tempfile.mkdtemp(prefix="verif_c06_"))
+    try:
+        path = d / "reform.py"
+        for k, (name, src) in enumerate(FILE_REFORMS):
+            path.write_text(src, encoding="utf-8")
+            ns = {}
+            exec(src, ns)  # noqa: S102
+            out.state((date_iso[:4], "file-reform", k))
+            try:
+                via_file = run_api(df, p, [f, path], nodes)
+                via_object = run_api(df, p, [f, {name: ns[name]}], nodes)
+            except Exception as e:  # noqa: BLE001
+                if sim.known_crash(date_iso, e):
+                    out.count("sims_skipped_known_C08_crash")
+                else:
+                    out.violation(f"function:file-reform-raises:{name}", {"date": date_iso, "rule": name, "step": k}, repr(e)[:300])
+                continue
+            out.step(2)
+            dd = diff_nodes(via_object, via_file, nodes)
+            for c in sorted(dd)[:5]:
+                out.violation(f"function:file-form-differs-from-object-form:{name}", {"date": date_iso, "rule": name, "step": k, "column": c},
+                              f"reform of {name} given as a file path (file rewritten {k} times before) differs from the same function given as an object in column {c} ({dd[c][0]}: {dd[c][1]})")
+    finally:
+        shutil.rmtree(d, ignore_errors=True)
+    return out.dump()
+
+
+def renamed(func):
+    func.__name__ = "verif_renamed_replacement"
+    func.__qualname__ = "verif_renamed_replacement"
+    return func
 
 
 def replay(case):
@@ -317,6 +384,8 @@ def run(tier):
             for k in range(0, len(rules), 5):
                 ftasks.append((d, pop, rules[k : k + 5]))
     for part in harness.pmap(task_functions, harness.rotate(ftasks)):
+        rep.merge(part)
+    for part in harness.pmap(task_file_reforms, [(d, POP) for d in dates]):
         rep.merge(part)
     rep.bound = {"dates": dates, "function_dates": fdates, "populations": pops, "groups": len(INTERNAL_PARAMS_GROUPS)}
     rep.assumptions = ["users(g) = rules with a g_params argument or whose params_key_for_rounding is g; allowed = users and their descendants in the DAG",
